@@ -175,7 +175,11 @@ let c19conn line =
 
 (* ------------------------------------------------------------------- c19tls *)
 let c19tls line =
-  let be = if field_d line "be" "r" = "r" then Rustls else Openssl in
+  (* be: r / r22 / r21 / r20 = the rustls 0.23 / 0.22 / 0.21 / 0.20 connectors (same code, each version's ServerName parser is the
+     name oracle), o = OpenSSL, n = native-tls (no separate name step: name_ok is constantly true, a name the library rejects
+     is a failed handshake) *)
+  let bes = field_d line "be" "r" in
+  let be = if bes.[0] = 'r' then Rustls else Openssl in
   let io = field_d line "io" "mem" in
   let host = bytes_of_hex (field_d line "host" "") in
   let oracle = split ',' (field_d line "oracle" "") in
@@ -185,11 +189,14 @@ let c19tls line =
   let miss = ref false in
   let tab pre s = match List.assoc_opt (pre ^ hex_of_bytes s) otab with
     | Some "1" -> true | Some _ -> false | None -> miss := true; false in
-  let name_ok _ s = tab "name:" s in
+  let name_ok _ s = if bes = "n" then true else tab "name:" s in
   let handshake_ok _ _ s = tab "hs:" s in
   let show = function
     | TOk _ -> "OK req=1 echo=1"
-    | TErrInvalidInput -> "ERR InvalidInput"
+    | TErrInvalidInput ->
+      (* the rustls 0.20 connector reports a rejected name as io::ErrorKind::Other ("can only handle hostname-based connections"),
+         which the harness prints like any other non-InvalidInput error *)
+      if bes = "r20" then "ERR hs" else "ERR InvalidInput"
     | TErrHandshake -> "ERR hs" in
   let r =
     if io = "mem" then show (snd (tls_connect name_ok handshake_ok be host (z_of_int 0)))
